@@ -90,6 +90,9 @@ def c_tables():
     exe = os.path.join(BUILD, "c_tables-%d" % os.getpid())     # per process: concurrent checks must not overwrite a running binary
     cmd = ["gcc", "-O1", "-w", '-DSSM_SOURCE="%s"' % src, os.path.join(HERE, "c_tables.c"), "-o", exe, "-lm"]
     p = subprocess.run(cmd, capture_output=True, text=True)
+    if p.returncode != 0 and "degenerates" in p.stderr:
+        # a rewrite removed the pair string: read the same relation off the behaviour of test_consistency (see c_tables.c)
+        p = subprocess.run(cmd[:3] + ["-DSSM_NO_DEGENERATES_STRING"] + cmd[3:], capture_output=True, text=True)
     if p.returncode != 0:
         raise ExtractError("spuriousSSM.c does not compile for table extraction:\n" + p.stderr[-2000:])
     try:
